@@ -206,8 +206,9 @@ def run_unit_trace_comparison(ctx, jobs, issues):
         by_geo.setdefault(name, (g, []))[1].append((ri, p, d, rr))
     exprs, keys = [], []
     for name, (g, rays) in by_geo.items():
-        rl = "; ".join("run_unit_trace g %s %s" % (v3(p), v3(d)) for ri, p, d, rr in rays)
-        exprs.append("let g := %s in [%s]" % (geometry_term(g), rl))
+        tol = "(Tol %s %s)" % (hexf(g.tol), hexf(g.tol))
+        rl = "; ".join("run_unit_trace tol g %s %s" % (v3(p), v3(d)) for ri, p, d, rr in rays)
+        exprs.append("let tol := %s in let g := %s in [%s]" % (tol, geometry_term(g), rl))
         keys.append(name)
     if not exprs:
         return 0
